@@ -46,14 +46,157 @@ NsOps == {"AddNs", "SetDefault", "ResQN", "ResStr"}
 C03Clauses(step) == IF step.op.op \in NsOps THEN {C03a(step), C03b(step), C03c(step)} ELSE {}
 
 -----------------------------------------------------------------------------
+(* Helpers over logged observations                                        *)
+(* obs.con[h].recs = Seq([k, id: URI|NONE, attrs: Seq([a: URI, v: value])]) *)
+AttrSet(rec) == SeqToSet(rec.attrs)
+AttrVals(rec, au) == {x.v : x \in {y \in AttrSet(rec) : y.a = au}}
+ProvU(l) == <<"prov#", l>>
+IsRefU(au)  == IsProvLocal(au, RefAttrs)
+IsTimeU(au) == IsProvLocal(au, TimeAttrs)
+IsFormalU(au) == IsRefU(au) \/ IsTimeU(au)
+FormalPart(rec) == {x \in AttrSet(rec) : IsFormalU(x.a)}
+OtherPart(rec)  == {x \in AttrSet(rec) : ~IsFormalU(x.a)}
+AllRecs(obs) == UNION {SeqToSet(obs.con[h].recs) : h \in DOMAIN obs.con}
+
+(* What a name denotes in scope h, from the logged namespace tables only      *)
+(* (C03 semantics: own registered prefixes and pre-loaded ones, own default,   *)
+(* then the parent's).  NONE when the logged tables cannot tell.               *)
+Builtin == ("prov" :> ProvNS) @@ ("xsd" :> XsdNS) @@ ("xsi" :> XsiNS)
+LookupPrefix(nsobs, p) ==
+  LET hits == {e \in SeqToSet(nsobs.reg) : e[1] = p} IN
+  IF hits # {} THEN (CHOOSE e \in hits : TRUE)[2]
+  ELSE IF p \in DOMAIN Builtin THEN Builtin[p] ELSE NONE
+DenoteIn(obs, parents, h, n) ==
+  CASE n.rep = "qn"   -> n.ns \o n.l
+    [] n.rep = "uri"  -> n.u
+    [] n.rep = "rec"  -> obs.con[n.r.c].recs[n.r.i].id
+    [] n.rep = "pl"   -> LET own == LookupPrefix(obs.ns[h], n.p)
+                             up  == IF parents[h] # "" THEN LookupPrefix(obs.ns[parents[h]], n.p) ELSE NONE
+                         IN IF own # NONE THEN own \o n.l ELSE IF up # NONE THEN up \o n.l ELSE NONE
+    [] n.rep = "bare" -> IF obs.ns[h].dflt # NONE THEN obs.ns[h].dflt \o n.l
+                         ELSE IF parents[h] # "" /\ obs.ns[parents[h]].dflt # NONE
+                              THEN obs.ns[parents[h]].dflt \o n.l ELSE NONE
+
+(* The representation-free stored form of an input value, at projection level *)
+CanonP(obs, parents, h, au, iv) ==
+  CASE iv.t = "name" -> [t |-> "qn", u |-> DenoteIn(obs, parents, h, iv.n)]
+    [] iv.t = "nlit" -> IF iv.T = "anyURI" THEN [t |-> "uri", u |-> iv.u] ELSE [t |-> NativeT[iv.T], v |-> iv.v]
+    [] iv.t = "plit" -> [t |-> "str", v |-> iv.v]
+    [] iv.t = "iso"  -> IF IsTimeU(au) THEN [t |-> "dt", v |-> iv.v] ELSE [t |-> "isostr", v |-> iv.v]
+    [] iv.t = "lit"  -> [t |-> "lit", v |-> iv.v, dt |-> iv.dt.ns \o iv.dt.l]
+    [] OTHER         -> iv
+(* equality of projected values as Python sees it (1 == True == 1.0) *)
+PEq(v, w) == IF v.t \in NumKinds /\ w.t \in NumKinds THEN v.v = w.v ELSE v = w
+
+-----------------------------------------------------------------------------
+(* C05 — records stay in normal form                                       *)
+RecOps == {"NewRec", "AddAttrs", "SetTime", "AddType", "AddRecord"}
+
+(* every PROV formal attribute of every record holds at most one value *)
+C05_single(step) ==
+  Cl("C05_single", AllRecs(step.post) # {},
+     \A rec \in AllRecs(step.post) : \A au \in {x.a : x \in FormalPart(rec)} :
+        Cardinality(AttrVals(rec, au)) <= 1)
+
+(* reference-valued formals hold qualified names, time-valued ones datetimes *)
+C05_typed(step) ==
+  Cl("C05_typed", \E rec \in AllRecs(step.post) : FormalPart(rec) # {},
+     \A rec \in AllRecs(step.post) : \A x \in FormalPart(rec) :
+        IF IsRefU(x.a) THEN x.v.t = "qn" ELSE x.v.t = "dt")
+
+(* the (name, canonical value) pairs a call supplies, in the scope of container h; *)
+(* pairs whose name the logged tables cannot resolve are left out                  *)
+Supplied(step, h, pairs) ==
+  {[a |-> DenoteIn(step.pre, step.parents, h, pairs[i][1]),
+    v |-> CanonP(step.pre, step.parents, h, DenoteIn(step.pre, step.parents, h, pairs[i][1]), pairs[i][2])]
+     : i \in {j \in 1..Len(pairs) : DenoteIn(step.pre, step.parents, h, pairs[j][1]) # NONE}}
+TimePairs(a) == (IF a.start = <<>> THEN {} ELSE {[a |-> ProvU("startTime"), v |-> CanonP(<<>>, <<>>, "", ProvU("startTime"), a.start[1])]})
+           \cup (IF a.end = <<>> THEN {} ELSE {[a |-> ProvU("endTime"), v |-> CanonP(<<>>, <<>>, "", ProvU("endTime"), a.end[1])]})
+SuppliedTo(step) ==
+  CASE step.op.op = "AddAttrs" -> Supplied(step, step.op.r.c, step.op.pairs)
+    [] step.op.op = "SetTime"  -> TimePairs(step.op)
+    [] OTHER -> {}
+TargetPre(step)  == step.pre.con[step.op.r.c].recs[step.op.r.i]
+TargetPost(step) == step.post.con[step.op.r.c].recs[step.op.r.i]
+(* the membership compatibility path the property does not claim: several      *)
+(* prov:entity values on one membership record                                  *)
+Unclaimed(rec, x) == rec.k = "membership" /\ x.a = ProvU("entity")
+
+(* a second, different value of a formal attribute is refused and the stored one stays *)
+C05_refuse(step) ==
+  LET pre == TargetPre(step)
+      sup == SuppliedTo(step)
+      conflict == \E x \in sup : /\ IsFormalU(x.a) /\ ~Unclaimed(pre, x)
+                                  /\ AttrVals(pre, x.a) # {}
+                                  /\ \A w \in AttrVals(pre, x.a) : ~PEq(w, x.v)
+  IN Cl("C05_refuse", step.op.op \in {"AddAttrs", "SetTime"} /\ conflict,
+        /\ step.exc = "ProvException"
+        /\ \A y \in FormalPart(pre) : y \in FormalPart(TargetPost(step)))
+
+(* re-adding the same value is a no-op *)
+C05_idem(step) ==
+  LET pre == TargetPre(step)
+      sup == SuppliedTo(step)
+      allsame == sup # {} /\ \A x \in sup : \E w \in AttrVals(pre, x.a) : PEq(w, x.v)
+  IN Cl("C05_idem", step.op.op \in {"AddAttrs", "SetTime"} /\ allsame /\
+                    Cardinality(sup) = (IF step.op.op = "AddAttrs" THEN Len(step.op.pairs) ELSE Cardinality(sup)),
+        step.exc = "none" /\ AttrSet(TargetPost(step)) = AttrSet(pre))
+
+(* other attributes accumulate canonical values; nothing else appears or disappears *)
+C05_accumulate(step) ==
+  LET pre == TargetPre(step)
+      post == TargetPost(step)
+      sup == SuppliedTo(step)
+      complete == step.op.op = "SetTime" \/ Cardinality(sup) = Len(step.op.pairs)
+      grown(S, T) == \A x \in S : \E y \in T : y.a = x.a /\ PEq(y.v, x.v)
+  IN Cl("C05_accumulate", step.op.op = "AddAttrs" /\ complete,
+        /\ AttrSet(pre) \subseteq AttrSet(post)
+        /\ grown(AttrSet(post), AttrSet(pre) \cup sup)
+        /\ step.exc = "none" => grown({x \in sup : ~IsFormalU(x.a)}, AttrSet(post)))
+
+(* construction: the new record holds exactly the canonical forms of what was supplied *)
+C05_new(step) ==
+  LET h == step.op.h
+      n == Len(step.pre.con[h].recs)
+      pairs == [i \in 1..Len(step.op.formals) |-> <<NameQN("prov", ProvNS, <<step.op.formals[i][1]>>), step.op.formals[i][2]>>]
+               \o step.op.extras
+      sup == Supplied(step, h, pairs)
+      complete == Cardinality(sup) = Len(pairs) \/ Len(pairs) = 0
+      grown(S, T) == \A x \in S : \E y \in T : y.a = x.a /\ PEq(y.v, x.v)
+  IN Cl("C05_new", step.op.op = "NewRec" /\ step.exc = "none" /\ complete,
+        /\ Len(step.post.con[h].recs) = n + 1
+        /\ LET rec == step.post.con[h].recs[n + 1] IN
+             /\ rec.k = step.op.k
+             /\ grown(AttrSet(rec), sup) /\ grown(sup, AttrSet(rec)))
+
+C05Clauses(step) ==
+  IF step.op.op \in RecOps
+  THEN {C05_single(step), C05_typed(step)}
+       \cup (IF step.op.op \in {"AddAttrs", "SetTime"} THEN {C05_refuse(step), C05_idem(step)} ELSE {})
+       \cup (IF step.op.op = "AddAttrs" THEN {C05_accumulate(step)} ELSE {})
+       \cup (IF step.op.op = "NewRec" THEN {C05_new(step)} ELSE {})
+  ELSE {}
+
+-----------------------------------------------------------------------------
 (* Conformance (drift) clauses: the model's post-state against the logged   *)
 (* one.  A failure here never becomes a VIOLATION (DESIGN 2.5).             *)
 M_Names(msPost, mres, step) ==
-  Cl("M_Names", step.op.op \in NsOps,
+  Cl("M_Names", TRUE,
      /\ \A h \in DOMAIN step.post.ns :
-          /\ h \in DOMAIN msPost.mgr
-          /\ SeqToSet(msPost.mgr[h].reg) = SeqToSet(step.post.ns[h].reg)
-          /\ msPost.mgr[h].dflt = step.post.ns[h].dflt
+          /\ h \in DOMAIN msPost.con
+          /\ SeqToSet(msPost.mgr[msPost.con[h].mgr].reg) = SeqToSet(step.post.ns[h].reg)
+          /\ msPost.mgr[msPost.con[h].mgr].dflt = step.post.ns[h].dflt
      /\ step.op.op \in {"ResQN", "ResStr"} => mres = step.res)
+
+M_Con(msPost, step) ==
+  Cl("M_Con", "con" \in DOMAIN step.post,
+     \A h \in DOMAIN step.post.con :
+        /\ h \in DOMAIN msPost.con
+        /\ Len(step.post.con[h].recs) = Len(msPost.con[h].recs)
+        /\ \A i \in 1..Len(msPost.con[h].recs) :
+             LET m == ProjRec(msPost.con[h].recs[i])
+                 o == step.post.con[h].recs[i]
+             IN m.k = o.k /\ m.id = o.id /\ m.attrs = SeqToSet(o.attrs))
+M_Exc(r, step) == Cl("M_Exc", TRUE, r.exc = step.exc)
 
 =============================================================================
